@@ -45,8 +45,10 @@ func verifyAuthorizedKeys(user *user.User, authorizedKeysBytes []byte,
 	for len(authorizedKeysBytes) > 0 {
 		authorizedPubKey, _, _, restBytes, err := gossh.ParseAuthorizedKey(authorizedKeysBytes)
 		if err != nil {
-			return nil, fmt.Errorf("unable to parse authorized keys bytes|%s|%s",
-				user, err.Error())
+			// No (further) key in the remaining bytes, e.g. trailing comments
+			// or blank lines: all keys of the file have been collected.
+			dlog.Server.Debug(user, "No further authorized key found", err)
+			break
 		}
 		authorizedKeysMap[string(authorizedPubKey.Marshal())] = true
 		authorizedKeysBytes = restBytes
